@@ -398,8 +398,12 @@ func c05WTExec(c c05WTCase, st *lab.Stats) *lab.Fail {
 	got := map[string]int{}
 	nframes := 0
 	tail := ""
+	idle := 1500 * time.Millisecond
+	if c.TimeoutMs == 0 {
+		idle = 5 * time.Second // nothing ends this stream but the writers finishing: a slow machine must not look like a lost frame
+	}
 	for {
-		m, err := cl.Next(1500 * time.Millisecond)
+		m, err := cl.Next(idle)
 		if err == nil {
 			e, perr := m.Entry()
 			if perr != nil {
